@@ -4,7 +4,13 @@ package checks
 // mode: differential against the reference model (model.go).
 
 import (
+	"encoding/json"
 	"fmt"
+	"os"
+	"path/filepath"
+	"regexp"
+	"strconv"
+	"strings"
 	"testing"
 
 	"pgregory.net/rapid"
@@ -207,6 +213,63 @@ func modelTableCases() []ExecCase {
 	return out
 }
 
+// pgCorpusCases harvests (json, path, options) triples from the repository's
+// PostgreSQL-derived regression rows (path/exec/pg_test.go). The rows' expected
+// outputs come from PostgreSQL and the implementation passes them, so agreement
+// of the model with the implementation on these inputs means the model
+// reproduces the PostgreSQL-derived rows: the model's self-test.
+func pgCorpusCases() []ExecCase {
+	repo := envOr("VERIF_REPO", "/repo")
+	b, err := os.ReadFile(filepath.Join(repo, "path", "exec", "pg_test.go"))
+	if err != nil {
+		return nil
+	}
+	reJSON := regexp.MustCompile("json:\\s*js\\(`([^`]*)`\\)")
+	rePath := regexp.MustCompile("path:\\s*(?:`([^`]*)`|\"((?:[^\"\\\\]|\\\\.)*)\")")
+	reVars := regexp.MustCompile("WithVars\\(jv\\(`([^`]*)`\\)\\)")
+	var out []ExecCase
+	seen := map[string]bool{}
+	for _, block := range strings.Split(string(b), "test:")[1:] {
+		j := reJSON.FindStringSubmatch(block)
+		pm := rePath.FindStringSubmatch(block)
+		if j == nil || pm == nil {
+			continue
+		}
+		pathText := pm[1]
+		if pathText == "" {
+			if uq, err := strconv.Unquote(`"` + pm[2] + `"`); err == nil {
+				pathText = uq
+			} else {
+				continue
+			}
+		}
+		// only the options written inside this row
+		row := block
+		if i := strings.Index(row, "},\n\t\t{"); i >= 0 {
+			row = row[:i]
+		}
+		c := ExecCase{Path: pathText, Doc: j[1], Opts: Opts{TZ: strings.Contains(row, "WithTZ()")}}
+		if v := reVars.FindStringSubmatch(row); v != nil {
+			var m map[string]json.RawMessage
+			if json.Unmarshal([]byte(v[1]), &m) == nil {
+				c.Opts.HasVars = true
+				c.Opts.Vars = map[string]string{}
+				for k, raw := range m {
+					c.Opts.Vars[k] = string(raw)
+				}
+			}
+		}
+		for _, un := range []bool{false, true} {
+			c.Opts.UseNumber = un
+			if !seen[c.Key()] {
+				seen[c.Key()] = true
+				out = append(out, c)
+			}
+		}
+	}
+	return out
+}
+
 func TestC01(t *testing.T) {
 	ev := newEv(t, "C01")
 	c01Ev = ev
@@ -244,6 +307,24 @@ func TestC01(t *testing.T) {
 			}
 		}
 		ev.Exhaustive("all_paths_of_one_or_two_steps_by_documents_by_mode", int64(len(cs)))
+	})
+	t.Run("postgres_regression_inputs", func(t *testing.T) {
+		b := ev.enum(t)
+		cs := pgCorpusCases()
+		for i, c := range cs {
+			if !mine(i) {
+				continue
+			}
+			v, f := checkModelFacts(c)
+			record("pg_corpus", c, f, nil)
+			if !b.Check("c01.model", c, v) {
+				return
+			}
+		}
+		ev.Exhaustive("inputs_of_the_postgres_derived_regression_rows", int64(len(cs)))
+		if len(cs) == 0 {
+			ev.Note("path/exec/pg_test.go not found: the PostgreSQL-derived inputs were not replayed")
+		}
 	})
 	ev.rapidProp(t, "random", func(rt *rapid.T) {
 		c, p := genModelCase(rt)
